@@ -431,3 +431,16 @@ package coordinator
 //@   ghost fan_out_failed bool = false
 //@   at after MetaExecutor.ExecuteQuery#1: ghost fan_out_failed = callresult1 != nil
 //@   ensures never_silently_incomplete: fan_out_failed ==> result1 != nil
+
+// ---- C05: a retry round of a fan-out does not keep what the failed round collected ----
+// After the first owner failed, IteratorCost asks the remaining owners round by round; a round that fails as a whole
+// is thrown away and the next one starts over. The list a round collects into is made anew after the previous
+// round was joined (`len#1` is the length the new list is made with) - otherwise the costs of the nodes that did answer in a failed round are counted again.
+//@ func (*remoteShardGroup).IteratorCost
+//@   props C05
+//@   nosafety
+//@   callee_requires_assumed
+//@   ghost round_is_fresh bool = false
+//@   at after len#1: ghost round_is_fresh = true
+//@   at after Group.Wait#1: ghost round_is_fresh = false
+//@   call Group.Go#1 requires a_retry_round_collects_into_an_empty_list: round_is_fresh
